@@ -1,7 +1,9 @@
 (* FeaturesIO.v — decoding of generated cases and encoding of observations for the
    state-feature model (dispatch kind 8).
    case := [order; states; transitions; ignore; nmodels; init; history; tags; hooks;
-            paths; inits; pre; cls; k; retrig; finals]
+            paths; inits; pre; cls; k; retrig; finals; decor; hier]
+     decor       : the decorators, outermost first, each a list of codes (0-3 the features, 4 Timeout)
+     hier        : the machine class is hierarchical (its state class has the callback kind on_final)
      finals      : ids of the states built with final=True.  Decoded and deliberately unused: no mixin
                    reads State.final (Props/C19.v, C19_error_final_independent); the implementation side
                    passes the flag, so a dependence on it shows as a disagreement
@@ -26,7 +28,7 @@
      tag table : per state, per inspected tag: [] (AttributeError) or [bool]
      step      : [items; result; per model [state; per inspected hook: [] or [object id]]] *)
 From Coq Require Import List Arith Bool.
-From M Require Import Sx Features FeaturesSpec FeaturesH FeaturesDyn FeaturesRe.
+From M Require Import Sx Features FeaturesSpec FeaturesH FeaturesDyn FeaturesRe FeaturesKinds.
 Import ListNotations.
 
 Definition d_feature (x : sx) : option feature :=
@@ -117,6 +119,18 @@ Definition e_tagtable (c : fcfg) (tags : list nat) : sx :=
 (* flat case (no paths, no initial children): the flat engine [frun] of the theorems, its
    specification, and the hierarchical engine on the same flat configuration (must coincide);
    nested case: the hierarchical engine [hrun]. *)
+(* decoration: decorators outermost first, each a list of codes (0-3 features, 4 Timeout) *)
+Definition d_mixin (x : sx) : option mixin :=
+  match x with
+  | N 4 => Some MTimeout
+  | _ => match d_feature x with Some f => Some (MFeat f) | None => None end
+  end.
+(* [[on_final; on_timeout] of the decorated class; the same of the undecorated class] *)
+Definition e_kinds (ds : list (list mixin)) (hier : bool) : sx :=
+  L [L [e_bool (has_kind KFinal (stack_kinds ds (base_kinds hier)));
+        e_bool (has_kind KTimeout (stack_kinds ds (base_kinds hier)))];
+     L [e_bool (has_kind KFinal (base_kinds hier)); e_bool (has_kind KTimeout (base_kinds hier))]].
+
 (* re-entrant cases *)
 Definition trig_of (h : list fop) : list (fmodel * fevent) :=
   flat_map (fun op => match op with OTrig m e => [(m, e)] | _ => [] end) h.
@@ -142,13 +156,13 @@ Definition re_fuel : nat := 64.
 
 Definition run_features_case (x : sx) : sx :=
   match x with
-  | L [ox; sx_; tx; ign; N nm; N s0; hx; tgx; hkx; px; ix; prex; clsx; N k; rtx; fnx] =>
+  | L [ox; sx_; tx; ign; N nm; N s0; hx; tgx; hkx; px; ix; prex; clsx; N k; rtx; fnx; dcx; hrx] =>
       match d_list d_feature ox, d_list d_fstate sx_, d_list d_ftrans tx, d_bool ign,
             d_list d_op hx, d_list d_nat tgx, d_list d_nat hkx,
             d_list (d_pair d_nat (d_list d_nat)) px, d_list (d_pair d_nat d_nat) ix,
-            d_list d_triple prex, d_list d_triple clsx, d_list d_triple rtx, d_list d_nat fnx with
+            d_list d_triple prex, d_list d_triple clsx, d_list d_triple rtx, d_list d_nat fnx, d_list (d_list d_mixin) dcx, d_bool hrx with
       | Some o, Some sts, Some ts, Some ig, Some h, Some tags, Some hooks, Some paths, Some inits,
-        Some pre, Some cls, Some rts, Some _finals =>
+        Some pre, Some cls, Some rts, Some _finals, Some ds, Some hier =>
           match build o (map snd sts) with
           | Some e => L [N 1; L [N 1; e_fexn e]]
           | None =>
@@ -167,22 +181,22 @@ Definition run_features_case (x : sx) : sx :=
                              L (map (e_srstep c cl nm hooks)
                                     (spec_rrun re_fuel c trg (mkSRW (spec_init_p s0 (lookup3 pre) k) (fun _ => 0))
                                                (trig_of h)));
-                             L []]]
+                             L []; e_kinds ds hier]]
               | [], [], [] =>
                   L [N 1; L [N 0; e_tagtable c tags;
                              L (map (e_step cl nm hooks) (drun c ts w0 h));
                              L (map (e_step nocl nm []) (drun (plain_cfg c) ts w0 h));
                              L (map (e_sstep c cl nm hooks) (spec_drun c ts (spec_init_p s0 (lookup3 pre) k) h));
-                             L (map (e_step cl nm hooks) (hdrun (hflat c) ts w0 h))]]
+                             L (map (e_step cl nm hooks) (hdrun (hflat c) ts w0 h)); e_kinds ds hier]]
               | [], _, _ =>
                   let hc := mkH c paths inits in
                   L [N 1; L [N 0; e_tagtable c tags;
                              L (map (e_step cl nm hooks) (hdrun hc ts w0 h));
                              L (map (e_step nocl nm []) (hdrun (hplain hc) ts w0 h));
-                             L []; L []]]
+                             L []; L []; e_kinds ds hier]]
               end
           end
-      | _, _, _, _, _, _, _, _, _, _, _, _, _ => L [N 0]
+      | _, _, _, _, _, _, _, _, _, _, _, _, _, _, _ => L [N 0]
       end
   | _ => L [N 0]
   end.
